@@ -605,6 +605,7 @@ pub fn check_c26(case: &Case, p: &Parsed, trace: bool) -> C26Outcome {
             positions: BTreeMap::new(),
             nullified: Default::default(),
             unsupported: None,
+            skipped_items: Default::default(),
             rows: Default::default(),
         };
         let r = m.execute(case.operation_name.as_deref());
@@ -645,9 +646,15 @@ pub fn check_c26(case: &Case, p: &Parsed, trace: bool) -> C26Outcome {
             );
         }
         // 3. no null at a non-null position (typing from the model's walk, data from the real run)
+        // positions are recorded with stream indices; `data` lacks skipped list items
+        let data_positions: BTreeMap<String, bool> = m
+            .positions
+            .iter()
+            .filter_map(|(p, nn)| model::to_data_path(&m.skipped_items, p).map(|d| (d, *nn)))
+            .collect();
         let mut bad = None;
         visit_nulls(&real_data, &mut String::new(), &mut |path| {
-            if bad.is_none() && m.positions.get(path) == Some(&true) {
+            if bad.is_none() && data_positions.get(path) == Some(&true) {
                 bad = Some(path.to_string());
             }
         });
@@ -686,7 +693,14 @@ pub fn check_c26(case: &Case, p: &Parsed, trace: bool) -> C26Outcome {
         }
         // 6. every error's path addresses a null position or lies below one
         for e in &real_errs {
-            match walk(&real_data, e) {
+            // F knows every skipped item M knows, and more (it executes more)
+            let Some(e_data) = model::to_data_path(&f.skipped_items, e) else {
+                return viol(
+                    "error_path_dangling",
+                    format!("error path `{e}` addresses a list item that was skipped"),
+                );
+            };
+            match walk(&real_data, &e_data) {
                 Walk::Found(J::Null) | Walk::HitNull => {}
                 Walk::Found(v) => {
                     return viol(
